@@ -612,6 +612,25 @@ def expand_types(txt, load, meta):
         return "// ---- real definition: %s %s (R9) ----\n%s" % (kv["file"], kv["name"], slice_type(t, mk, kv["name"], kv))
     return re.sub(r"(?m)^\s*//@TYPE\s+([^\n]*)$", f, txt)
 
+def const_value(expr):
+    """R16: a constant initializer made only of integer literals, the MAX of the unsigned types, casts and
+    + - * / << >> | & is replaced by its value (Verus does not evaluate shifts without bit-vector mode, which would
+    turn a harmless `1 << 16` into an unprovable obligation); anything else is copied as it is."""
+    e = expr
+    for t, bits in (("u8", 8), ("u16", 16), ("u32", 32), ("u64", 64), ("usize", 64)):
+        e = re.sub(r"\b%s::MAX\b" % t, str((1 << bits) - 1), e)
+    e = re.sub(r"\bas\s+(?:u8|u16|u32|u64|usize|i64|i32)\b", "", e)
+    e = re.sub(r"(?<=[0-9a-fA-F])_(?=[0-9a-fA-F])", "", e)
+    e = re.sub(r"(\d)(?:u8|u16|u32|u64|usize)\b", r"\1", e)
+    if not re.fullmatch(r"[0-9a-fA-FxX\s+\-*/<>|&()]+", e) or re.search(r"[a-fA-F]", re.sub(r"0[xX][0-9a-fA-F]+", "", e)):
+        return expr
+    try:
+        v = eval(e.replace("/", "//"), {"__builtins__": {}}, {})
+    except Exception:
+        return expr
+    return "%d /* = %s */" % (v, expr) if isinstance(v, int) and 0 <= v < (1 << 64) else expr
+
+
 def build_unit(template_path, src_dir, verus_dir):
     if not os.path.exists(template_path):
         raise LostAnchor("unit template %s missing" % template_path)
@@ -621,6 +640,7 @@ def build_unit(template_path, src_dir, verus_dir):
     preloops = {}
     ghosts = []
     cache = {}
+    consts = {}
 
     def load(f):
         if f not in cache:
@@ -850,13 +870,30 @@ def build_unit(template_path, src_dir, verus_dir):
                 body = body[:at] + "\n" + text + "\n" + body[at:]
                 meta["rules"]["GHOST"] = meta["rules"].get("GHOST", 0) + 1
             ghosts = []
+            # R16: module-level constants of the same source file that the extracted text names
+            for cname in sorted(set(re.findall(r"\b[A-Z][A-Z0-9_]{2,}\b", body))):
+                cm = re.search(r"(?m)^(?:pub(?:\([a-z]+\))?\s+)?const\s+%s\s*:\s*([^=;]+?)\s*=\s*([^;]+);" % cname, text)
+                if cm and mask[cm.start()]:
+                    consts[cname] = "pub const %s: %s = %s;" % (cname, cm.group(1), const_value(cm.group(2).strip()))
             out.append("// ---- begin extracted: %s ----" % where)
             out.append(body)
             out.append("// ---- end extracted ----")
             meta["sliced"].append(where)
         else:
             out.append(line)
-    return "\n".join(out) + "\n", meta
+    res = "\n".join(out) + "\n"
+    # R16: the real definition of each such constant is copied in, unless the unit (or a file it includes) already
+    # defines a constant of that name
+    add = [d for n, d in sorted(consts.items()) if not re.search(r"\bconst\s+%s\b" % n, res)]
+    if add:
+        k = res.find("verus! {")
+        if k < 0:
+            raise LostAnchor("no verus! block to place real constants in")
+        k = res.find("\n", k) + 1
+        res = res[:k] + "// ---- real constants (R16) ----\n" + "\n".join(add) + "\n" + res[k:]
+        meta["rules"]["R16"] = len(add)
+        meta["consts"] = [d for d in add]
+    return res, meta
 
 
 def falsify(text):
